@@ -186,18 +186,34 @@ def run(a):
 
 def table(a):
     rows = [json.loads(l) for l in open(a.results) if l.strip()]
+    tri = {}
+    tp = os.path.join(os.path.dirname(os.path.abspath(__file__)), "..", "seeded", "mech_triage.json")
+    if os.path.exists(tp):
+        tri = json.load(open(tp))
     n = len(rows)
     st = {}
     for r in rows:
         st[r["stage"]] = st.get(r["stage"], 0) + 1
     surv = [r for r in rows if r["stage"] == "survivor"]
     caught = [r for r in surv if r.get("caught")]
-    print(f"mutants: {n}; do not compile: {st.get('nocompile', 0)}; killed by the repository's tests: {st.get('killed-by-suite', 0)}; "
-          f"survive the tests: {len(surv)}; of those reported by a check: {len(caught)}; not reported: {len(surv) - len(caught)}\n")
-    print("| file | line | operator | checks | result |\n|---|---|---|---|---|")
+    unc = [r for r in surv if not r.get("caught")]
+    kinds = {}
+    for r in unc:
+        t = tri.get("%s.%s" % (r["file"], r["k"]), {"verdict": "untriaged"})
+        kinds[t["verdict"]] = kinds.get(t["verdict"], 0) + 1
+    print("# Mechanical single-site mutants\n")
+    print("Generated by `tools/mechmut.py table` from the run's result file and `seeded/mech_triage.json` (hand triage of the\n"
+          "survivors no check reported). Operators and procedure: DESIGN.md §8.\n")
+    print(f"Mutants sampled: {n}. Do not compile: {st.get('nocompile', 0)}. Killed by the repository's own tests: {st.get('killed-by-suite', 0)}. "
+          f"Survive the repository's tests: {len(surv)} — of those reported by at least one check: {len(caught)}; not reported: {len(unc)} "
+          f"({', '.join('%s: %d' % kv for kv in sorted(kinds.items()))}).\n")
+    print("## Survivors of the repository's tests\n")
+    print("| file:line | operator | checks run | result | triage |\n|---|---|---|---|---|")
     for r in surv:
-        ch = "; ".join(f"{k}: {v.split(' ')[0]}{' nfi' if ' nfi' in v else ''}" for k, v in r.get("checks", {}).items())
-        print(f"| {r['file']} | {r['line']} | {r['op']} {r['detail']} | {ch} | {'caught' if r.get('caught') else 'NOT REPORTED'} |")
+        ch = "; ".join(f"{k}: {v.split(' ')[0]}{' (no failing input)' if ' nfi' in v else ''}" for k, v in r.get("checks", {}).items())
+        t = tri.get("%s.%s" % (r["file"], r["k"]), {})
+        res = "reported" if r.get("caught") else "not reported"
+        print(f"| {r['file']}:{r['line']} | {r['op']} {r['detail']} | {ch} | {res} | {t.get('verdict', '') if not r.get('caught') else ''} {t.get('note', '') if not r.get('caught') else ''} |")
 
 
 if __name__ == "__main__":
